@@ -1,9 +1,9 @@
-"""C02 — decided by PlMachine/PlExpr (TLA+) over generated program families: ops."""
+"""C02 — decided by PlMachine/PlExpr (TLA+) over generated program families: ops,errexpr."""
 from lib import gen
 from checks import machine
 
 LEVEL = "model_checking"
-FAMILIES = "ops".split(",")
+FAMILIES = "ops,errexpr".split(",")
 
 
 def run(ck):
